@@ -174,7 +174,7 @@ def _exchange_chunk(job):
                 if c['id'] == 'T9' and fam == 'xml':
                     continue          # XmlDocument has no envelope, hence no headers
                 try:
-                    w = World(c, fam, v)
+                    w = World(c, fam, v, poly=bool(c.get('poly')))
                     # one validator per case sees the same document with comments sprinkled in
                     obs = w.exchange(noise='comments' if (i + fi + vi) % 3 == 0 else None)
                     if v == 'soft' and c['id'] != 'T9' and (not quick or (i + fi) % 4 == seed % 4):
@@ -182,7 +182,7 @@ def _exchange_chunk(job):
                         if cd is not None:
                             obs['client'] = cd
                         # (zeep reads an empty xsd:string element as None: it cannot be the oracle for '' values)
-                        if fam in ('soap11', 'soap12') and '["leaf", ""]' not in json.dumps(c['rvals']):
+                        if fam in ('soap11', 'soap12') and '["leaf", ""]' not in json.dumps(c['rvals']) and not c.get('poly'):
                             zargs, zd = zeep_decode(w)
                             obs['zeep'] = zd
                             if zargs is not None:
@@ -198,6 +198,10 @@ def run(ctx):
     global _CASES
     import multiprocessing
     cases = S.export(ctx)
+    # same-named classes of different namespaces behind one base (SpynePolyCases.P5): what a type marker names is a
+    # (namespace, name) pair resolved in the document, for every element of every request a server sees
+    from . import c16
+    cases = cases + [c for c in c16.export(ctx) if c['id'] == 'P5']
     _CASES = cases
     n = 12
     idx = list(range(len(cases)))
